@@ -265,6 +265,7 @@ Inv_C11 == AtEnd => /\ Ok(C11a(CX, S, NH.res, NH.h)) /\ Ok(C11b(CX, S, NH.res, N
                     /\ Ok(C11e(CX, S, NH.res, NH.h))
 Inv_C12 == AtEnd => /\ Ok(C12a(CX, S, Unchanged)) /\ Ok(C12b(CX, S, Unchanged))
                     /\ Ok(C12c(CX, S, NH.res, NH.h, Unchanged))
+                    /\ Ok(C12d(CX, S, NH.res, Unchanged))
 Inv_C13 == /\ (Stable => Ok(C13a(CX, S)) /\ Ok(C13b(CX, S)))
            /\ (AtCall => TrOK(C13c(pre.s, S, pre.call, pre.res)) /\ TrOK(C13d(pre.s, S)))
            /\ (AtEnd => Ok(C13e(CX, S)))
